@@ -160,6 +160,11 @@ func VH_C10_kubernetes() {
 	zz.Reach("end")
 }
 
+// executionMinInterval spellings and their exact value (whole seconds, sub-second,
+// fractional, composite)
+var vhIntervalTexts = []string{"3s", "500ms", "1500ms", "1m30s500ms", "0.9s"}
+var vhIntervalNanos = []int64{3000000000, 500000000, 1500000000, 90500000000, 900000000}
+
 // VH_C10_others: onStartup, schedules, admission, conversion and settings next
 // to one kubernetes binding named kA.
 func VH_C10_others() {
@@ -219,6 +224,7 @@ func VH_C10_others() {
 		wantErr = zz.Or(wantErr, vhIncludeBad(names, cc.IncludeSnapshotsFrom))
 	}
 	settingsKind := zz.Len("settings_kind", 0, 3)
+	ii := 0
 	switch settingsKind {
 	case 1:
 		cv1.Settings = &SettingsV1{ExecutionMinInterval: "3s", ExecutionBurst: "2"}
@@ -246,7 +252,7 @@ func VH_C10_others() {
 	zz.Assert(len(c.KubernetesValidating) == vhB2I(hasValidating) && len(c.KubernetesMutating) == vhB2I(hasMutating) && len(c.KubernetesConversion) == vhB2I(hasConversion), "declared_bindings_only")
 	zz.Assert((c.Settings != nil) == (settingsKind == 1), "settings_as_declared")
 	if c.Settings != nil {
-		zz.Assert(int64(c.Settings.ExecutionMinInterval) == 3000000000 && c.Settings.ExecutionBurst == 2, "settings_values_kept")
+		zz.Assert(int64(c.Settings.ExecutionMinInterval) == vhIntervalNanos[ii] && c.Settings.ExecutionBurst == 2, "settings_values_kept")
 	}
 	for i := 0; i < ns && i < len(c.Schedules); i++ {
 		in, out := cv1.Schedule[i], c.Schedules[i]
@@ -283,4 +289,30 @@ func vhB2I(b bool) int {
 		return 1
 	}
 	return 0
+}
+
+
+// VH_C10_settings: the settings section alone: every spelling of
+// executionMinInterval (whole seconds, sub-second, fractional, composite) and of
+// executionBurst is carried into the effective configuration with its exact value;
+// an unparsable value is an error.
+func VH_C10_settings() {
+	ii := zz.Len("interval", 0, len(vhIntervalTexts))
+	text := "soon"
+	if ii < len(vhIntervalTexts) {
+		text = vhIntervalTexts[ii]
+	}
+	bi := zz.Len("burst", 0, 4)
+	bursts := []string{"0", "1", "2", "5", "many"}
+	cv1 := &HookConfigV1{}
+	st, err := cv1.CheckAndConvertSettings(&SettingsV1{ExecutionMinInterval: text, ExecutionBurst: bursts[bi]})
+	bad := ii == len(vhIntervalTexts) || bi == 4
+	zz.Assert(bad == (err != nil), "unparsable_settings_are_rejected")
+	if err == nil {
+		zz.Assert(st != nil && int64(st.ExecutionMinInterval) == vhIntervalNanos[ii], "interval_kept_exactly")
+		zz.Assert(st != nil && st.ExecutionBurst == []int{0, 1, 2, 5}[bi], "burst_kept_exactly")
+	}
+	none, err2 := cv1.CheckAndConvertSettings(nil)
+	zz.Assert(none == nil && err2 == nil, "no_settings_no_limits")
+	zz.Reach("end")
 }
